@@ -55,6 +55,9 @@ def gen_history_case(rng, length, with_invalid=True, queries=True, refless_scrip
         for sym, u in w.units.items():
             ops.append(["unit_info", sym]); meta.append(dict(kind="unit_info", sym=sym))
             ops.append(["q_mk", "-", "3/2", sym, MODE]); meta.append(dict(kind="q_mk", sym=sym))
+            if u["scale"] is None or w.classes[u["cls"]]["quantum"] is None:
+                # ... and from an amount-and-symbol string
+                ops.append(["q_parse", "-", f"3/2 {sym}", "-", MODE]); meta.append(dict(kind="q_mk", sym=sym))
             ref = w.classes[u["cls"]]["ref"]
             if ref is not None and u["scale"] is not None and w.classes[u["cls"]]["quantum"] is None:
                 ops.append(["q_conv", "1@" + sym, ref, MODE])
@@ -139,7 +142,7 @@ def directory_oracle(case, impl, check_trace=True, check_dir=True):
                               f"{m['sym']}: {out}, definition denotes {want_eq}"})
         elif k == "q_mk" and check_dir:
             want = f":{world['units'][m['sym']]['cls']}"
-            if not out.startswith("ok qty ") or not out.endswith(want):
+            if not out.startswith("ok qty ") or not out.endswith(f"@{m['sym']}" + want):
                 fails.append({"site": "dir:factory-class", "msg": f"{m['sym']}: {out}"})
         elif k == "q_conv_ref" and check_dir:
             u = world["units"][m["sym"]]
